@@ -996,6 +996,11 @@ class C19:
                     r = S.run([spokgen_line(x, sig, msgs, U)], expect="ok", label="triv:proof_gen")[0]
                     if r.status == "OK":
                         doc = r.json(0); dr = parse_draws(r); sp = doc["CL03"]["spok"]
+                        # premise of C19_nisp5_hidden_responses_masked on this run: random_bits(k) returned a value with bit k - 1 set
+                        badtop = [(prm, v) for kd, prm, v in dr if kd == "bits" and len(prm) == 1 and v.bit_length() != prm[0]]
+                        stats["premise_checks"] = stats.get("premise_checks", 0) + 1
+                        if badtop or not (0 < clj.get(sp, ("challenge",)) < 2 ** 256):
+                            P.fail(S, "theorem-premise|nisp5_hidden_responses_masked", "random_bits(k) returned a value without bit k - 1, or the challenge is outside (0, 2^256): %s" % str(badtop[:1])[:200], [spokgen_line(x, sig, msgs, U)])
                         chal = [("c(spok)", clj.get(sp, ("challenge",)))]
                         for k, pv in enumerate(doc["CL03"]["proofs_commited_mi"]):
                             chal.append(("c(m_%d)" % U[k], sha_int(str(x.cpk[2 + U[k]]) + str(x.cpk[1]) + str(clj.get(pv, ("commitment", "value"))) + str(clj.get(pv, ("value", "t"))))))
